@@ -143,6 +143,14 @@ class Unroller:
         else:
             return ('int', t[0], t[1])
         ok = t[0] <= lo and hi <= t[1]
+        if not ok and ((a[1], a[2]) == t or (b[1], b[2]) == t or a[2] - a[1] >= (1 << 63) or b[2] - b[1] >= (1 << 63)):
+            # an operand "spans its whole type": that is what an unmodelled value looks like here (a tuple accumulator, a
+            # value from a call), not a range the inputs can drive - no claim either way
+            ok = None
+        if not ok and ok is not None and op == 'Sub' and a[1] != a[2] and b[1] != b[2]:
+            # `len - i` with i < len: intervals cannot see the relation between the two operands; a negative difference is
+            # only a claim when one side is a single value
+            ok = None
         self.ob(ok, '%s:%s' % (kind, op), line, '%s of [%d, %d] and [%d, %d] gives [%d, %d]; the type %s holds [%d, %d]' % (op, a[1], a[2], b[1], b[2], lo, hi, ty, t[0], t[1]))
         if ok:
             return ('int', lo, hi)
